@@ -53,16 +53,11 @@ def floats? (j : Json) : Option (List Float) := (nats? j).map (·.map floatOfBit
 
 def fld? (j : Json) (k : String) : Option Json := (j.getObjVal? k).toOption
 
-/-- wire order of a particle: x y z shift_x shift_y shift_z phi theta psi tomo_id -/
-def particleOf {α : Type} (z : α) : List α → Option (Particle α)
-  | [x, y, zz, sx, sy, sz, phi, theta, psi, tomo] =>
-    some { score := z, geom1 := z, geom2 := z, subtomo_id := z, tomo_id := tomo, object_id := z, subtomo_mean := z,
-           x := x, y := y, z := zz, shift_x := sx, shift_y := sy, shift_z := sz, geom3 := z, geom4 := z, geom5 := z,
-           phi := phi, psi := psi, theta := theta, cls := z }
-  | _ => none
+/-- wire order of a particle: all 20 fields in the canonical `Motl.motl_columns` order (`Field.all`) -/
+def particleOf {α : Type} (z : α) (l : List α) : Option (Particle α) :=
+  if l.length == 20 then some (Particle.ofList z l) else none
 
-def rowOf {α : Type} (p : Particle α) : List α :=
-  [p.x, p.y, p.z, p.shift_x, p.shift_y, p.shift_z, p.phi, p.theta, p.psi, p.tomo_id]
+def rowOf {α : Type} (p : Particle α) : List α := p.toList
 
 def motlF? (j : Json) (k : String) : Option (Motl Float) :=
   match fld? j k with
@@ -113,6 +108,11 @@ def bitsJ (xs : List Float) : Json := Json.arr (xs.map (fun x => (bitsOfFloat x 
 
 def poseJ (P : Pose Float) : Json := bitsJ ([P.pos.x, P.pos.y, P.pos.z] ++ P.R.toList)
 
+/-- the statement's pose, `null` where the statement says nothing (call outside the quantifier) -/
+def poseOJ : Option (Pose Float) → Json
+  | some P => poseJ P
+  | none => Json.null
+
 def rowsJ (m : Motl Float) : Json := Json.arr (m.map (fun p => bitsJ (rowOf p))).toArray
 
 def maxAbsDiff (a b : M3 Float) : Float :=
@@ -133,7 +133,7 @@ def handle (j : Json) : Json :=
       let out := applyOp svcF op m
       Json.mkObj [("rows", rowsJ out),
                   ("pose", Json.arr (out.map (fun p => poseJ (absPose svcF p))).toArray),
-                  ("spec", Json.arr (m.map (fun p => poseJ (specOp op (absPose svcF p)))).toArray),
+                  ("spec", Json.arr (m.map (fun p => poseOJ (specOp op (absPose svcF p)))).toArray),
                   ("resid", (bitsOfFloat (eulerResidual op m) : Json))]
     | _, _ => err "bad-args"
   | some "history" =>
@@ -142,22 +142,31 @@ def handle (j : Json) : Json :=
       let out := runOps svcF ops m
       Json.mkObj [("rows", rowsJ out),
                   ("pose", Json.arr (out.map (fun p => poseJ (absPose svcF p))).toArray),
-                  ("spec", Json.arr (m.map (fun p => poseJ (specRun ops (absPose svcF p)))).toArray)]
+                  ("spec", Json.arr (m.map (fun p => poseOJ (specRun ops (absPose svcF p)))).toArray)]
     | _, _ => err "bad-args"
   | some "check" =>
     match opF? j, motlF? j "before", motlF? j "after" with
     | some op, some b, some a =>
       if b.length != a.length then err "reject:length" else
       let opQ := mapOp ratOfFloat op
-      let res := (b.zip a).map (fun (pb, pa) =>
-        let qb := mapParticle ratOfFloat pb
-        let qa := mapParticle ratOfFloat pa
+      let qs := (b.zip a).map (fun (pb, pa) => (mapParticle ratOfFloat pb, mapParticle ratOfFloat pa))
+      let res := qs.map (fun (qb, qa) =>
         match opQ with
         | .update => checkUpdate qb qa
         | .scale f => checkScale f qb qa
         | .flip d => checkFlip d qb qa
         | _ => false)
-      Json.mkObj [("ok", Json.arr (res.map (fun (b : Bool) => Json.bool b)).toArray)]
+      -- the position clause alone (flip: an implementation may store another Euler triple of the same orientation)
+      let pos := qs.map (fun (qb, qa) =>
+        match opQ with
+        | .update => checkUpdate qb qa
+        | .scale f => checkScale f qb qa
+        | .flip d => checkFlipPos d qb qa
+        | _ => false)
+      -- is the particle inside the quantifier for this call
+      let cov := qs.map (fun (qb, _) => covers opQ qb.tomo_id)
+      let bj := fun (l : List Bool) => Json.arr (l.map (fun (b : Bool) => Json.bool b)).toArray
+      Json.mkObj [("ok", bj res), ("okpos", bj pos), ("covered", bj cov)]
     | _, _, _ => err "bad-args"
   | some "round" =>
     match fld? j "xs" >>= floats? with
